@@ -4,6 +4,6 @@ CONSTANTS
   GenHist = FALSE
 INIT TInit
 NEXT TNext
-INVARIANTS Bounded AtMostOnce OkMeansRan NoForeignResult ErrMeansNotRunModF10 Released Counters
+INVARIANTS Bounded AtMostOnce OkMeansRan NoForeignResult ErrMeansNotRun Released Counters
 POSTCONDITION Post
 CHECK_DEADLOCK FALSE
